@@ -60,3 +60,17 @@ proof fn lemma_char_off_in_framed_subrange(pre: Seq<char>, mid: Seq<char>, a: in
     assert(mid.take(j) =~= mid.take(a) + mid.subrange(a, j));
     encode_utf8_concat(mid.take(a), mid.subrange(a, j));
 }
+
+/// offset just behind the last line feed in front of `end` (0 if there is none)
+spec fn line_start_before(b: Seq<u8>, end: int) -> int
+    decreases end,
+{
+    if end <= 0 { 0 } else if b[end - 1] == 0x0au8 { end } else { line_start_before(b, end - 1) }
+}
+
+/// `s[..end].rfind('\n').map(|i| i + 1).unwrap_or(0)`: the start of the line that `end` lies in
+#[verifier::external_body]
+fn str_line_start_before(s: &str, end: usize) -> (r: usize)
+    requires end <= s.spec_bytes().len(), boundary(s@, end as int),
+    ensures r == line_start_before(s.spec_bytes(), end as int), r <= end, boundary(s@, r as int),
+{ s[..end].rfind('\n').map(|i| i + 1).unwrap_or(0) }
